@@ -408,6 +408,36 @@ impl Typer {
             ));
         }
         self.constraints = constraints;
+
+        // Arithmetic and ordering are defined on numbers (and `+` and the
+        // comparisons on strings); an operand whose type is still unknown or a
+        // type parameter is left to the other checks.
+        for (op, ty, strings_allowed) in std::mem::take(&mut self.operand_checks) {
+            let ty = self.norm(&ty);
+            let accepted = match &ty {
+                tast::Ty::TInt8
+                | tast::Ty::TInt16
+                | tast::Ty::TInt32
+                | tast::Ty::TInt64
+                | tast::Ty::TUint8
+                | tast::Ty::TUint16
+                | tast::Ty::TUint32
+                | tast::Ty::TUint64
+                | tast::Ty::TFloat32
+                | tast::Ty::TFloat64
+                | tast::Ty::TVar(..)
+                | tast::Ty::TParam { .. } => true,
+                tast::Ty::TString => strings_allowed,
+                _ => false,
+            };
+            if !accepted {
+                diagnostics.push(Diagnostic::new(
+                    Stage::Typer,
+                    Severity::Error,
+                    format!("Operator {} is not defined for operands of type {:?}", op, ty),
+                ));
+            }
+        }
     }
 
     fn norm(&mut self, ty: &tast::Ty) -> tast::Ty {
